@@ -1,5 +1,5 @@
 # C04 -- every input set is processed exactly once; every item reaches every consumer.
-import random
+import random, re
 from tools import vlib, t3
 from tools import ks
 
@@ -153,6 +153,56 @@ def resumed_case(args):
     return t3.success_case(sp, yield_seed=(rng.randint(1, 10**6), 300) if rng.random() < 0.3 else None, replays=("net", "tasks", "port"))
 
 
+def tagger_sibling_case(args):
+    """one out-port fanned out to a tagging component (MapToTags) and, directly, to a process whose default output name
+    contains the tags of its input: MapToTags adds the tags to the very IP object the sibling received, so whether the
+    sibling's task is formed before or after decides its output's name (finding D24, recorded).  The workflow is run several
+    times under different schedules; the sets of files are compared"""
+    seed, i = args
+    rng = random.Random(seed * 100057 + i)
+    hx = t3.hx
+    sp = t3.Spec(maxtasks=4, bufsize=rng.choice([1, 128]))
+    L = rng.randint(1, 3)
+    paths = ["g%d.txt" % j for j in range(L)]
+    for p in paths:
+        sp.files[p] = p + "\n"
+    s = sp.src("src", paths)
+    make = sp.proc(t3.Proc("make", kind="cattok", ins=[("a", [(s, "out")])], outs=[("o", "{i:a}.made")]))
+    sp.raw("COMP maptags %s %s %d %s" % (hx("tagger"), hx("sample"), make, hx("o")))
+    sp.proc(t3.Proc("direct", kind="cat", ins=[("y", [(make, "o")])], outs=[("o", None)]))
+    seen = {}
+    problems = []
+    runs = 0
+    last = None
+    while runs < 12 and (runs < 4 or len(seen) < 2):
+        sc = t3.Scratch()
+        try:
+            sc.plant(sp.files)
+            impl = t3.run_impl(sc, sp, timeout=60, yield_seed=(rng.randint(1, 10**6), 2000) if runs % 2 else None)
+            last = impl
+            runs += 1
+            if impl["rc"] != 0 or not impl["returned"]:
+                problems.append(("unexpected-failure", "exit %s: %s" % (impl["rc"], impl["stderr"][-200:])))
+                break
+            files = t3.data_files(impl["fs"])
+            seen.setdefault(tuple(sorted(files.items())), 0)
+            seen[tuple(sorted(files.items()))] += 1
+        finally:
+            sc.close()
+    known = []
+    if len(seen) > 1 and not problems:
+        # the recorded finding: the runs differ in nothing but the presence of the tag piece in the names of the sibling's outputs
+        strip = lambda name: re.sub(r"\.y\.sample_[^.]*(\.[^.]*)*?\.made(?=\.o$)", "", name)
+        norm = {tuple(sorted((strip(n), c) for n, c in fs)) for fs in seen}
+        if len(norm) == 1:
+            known.append("tagger-beside-sibling-consumer")
+        else:
+            a, b = list(seen)[:2]
+            problems.append(("timing-dependent-files", "the same workflow on the same inputs produced different sets of files in different runs: %s" % sorted(set(a) ^ set(b))[:4]))
+    return {"spec": sp.text(), "bufsize": sp.bufsize, "problems": problems, "known": known, "distinct_file_sets": len(seen), "runs": runs, "ntasks": 2 * L,
+            "rc": last["rc"] if last else None, "stderr": (last["stderr"][-200:] if last else ""), "yield": None, "wall": last["wall"] if last else 0}
+
+
 def run(rep, tier, seed):
     proved = vlib.prove(rep, MODULE, THEOREMS)
     ok, msg = vlib.build_ocaml()
@@ -163,6 +213,17 @@ def run(rep, tier, seed):
     results += t3.run_many(resumed_case, [(seed, i) for i in range(n // 12)])
     results += t3.run_many(empty_param_case, [(seed, i) for i in range(n // 12)])
     results += t3.run_many(ks.ks_case, [(seed, i, ("determinism",)) for i in range(n // 10)])
+    kf = vlib.known_findings("C04")
+    nd24 = 0
+    for r in t3.run_many(tagger_sibling_case, [(seed, i) for i in range(2 if tier == "quick" else 10)], workers=2):
+        if r.get("known"):
+            nd24 += 1
+            if any(f["kind"] == "tagger-beside-sibling-consumer" for f in kf):
+                rep.known_finding("an out-port fanned out to MapToTags and, directly, to a process with a default (tag-dependent) output name: MapToTags tags the shared IP in place, so the sibling's output name -- the set of files of the workflow -- depends on timing")
+            else:
+                r["problems"].append(("timing-dependent-files", "a tagging component beside a sibling consumer makes the set of files depend on timing"))
+        results.append(r)
+    rep.notes["tagger_sibling_runs_with_differing_file_sets"] = nd24
     t3.report_t3(rep, MODULE, proved, results, "T3 workflows vs WfModel")
     rep.cov["evaluations"] = len(results)
     rep.cov["distinct_nontrivial"] = len({r["spec"] for r in results if r["ntasks"] >= 2})
